@@ -233,20 +233,45 @@ where
             let failure = match r {
                 Ok(Ok(())) => None,
                 Ok(Err(fl)) => Some(fl),
-                Err(p) => Some(Failure::new("panic", format!("panic outside a generated case in shard {shard}: {}", panic_msg(&p)), json!({"shard": shard}))),
+                Err(p) => {
+                    let m = panic_msg(&p);
+                    let kind = if m.starts_with(HARNESS_PANIC) { "infra" } else { "panic" };
+                    Some(Failure::new(kind, format!("panic outside a generated case in shard {shard}: {m}"), json!({"shard": shard})))
+                }
             };
             ShardResult { stats: st, failure }
         })
         .collect()
 }
 
+thread_local! {
+    static LAST_PANIC_LOC: RefCell<String> = const { RefCell::new(String::new()) };
+}
+
+/// Quiet hook that remembers where the panic happened, so that a panic inside the harness itself
+/// (a bug of the checker: exit 2) is never mistaken for a panic of the code under test (a violation).
+pub fn install_panic_hook() {
+    std::panic::set_hook(Box::new(|info| {
+        let loc = info.location().map(|l| format!("{}:{}", l.file(), l.line())).unwrap_or_default();
+        LAST_PANIC_LOC.with(|l| *l.borrow_mut() = loc);
+    }));
+}
+
+pub const HARNESS_PANIC: &str = "HARNESS-PANIC";
+
 pub fn panic_msg(p: &Box<dyn std::any::Any + Send>) -> String {
-    if let Some(s) = p.downcast_ref::<&str>() {
+    let payload = if let Some(s) = p.downcast_ref::<&str>() {
         s.to_string()
     } else if let Some(s) = p.downcast_ref::<String>() {
         s.clone()
     } else {
         "<non-string panic payload>".into()
+    };
+    let loc = LAST_PANIC_LOC.with(|l| l.borrow().clone());
+    if loc.contains("vlib/src") || loc.contains("/verif/") {
+        format!("{HARNESS_PANIC} {payload} at {loc}")
+    } else {
+        format!("{payload} at {loc}")
     }
 }
 
@@ -257,7 +282,14 @@ pub fn check_enum<C: Serialize + Clone>(kind: &str, case: &C, st: &mut Stats, f:
     match r {
         Ok(Ok(())) => Ok(()),
         Ok(Err(msg)) => Err(Failure::new(kind, msg, case.clone())),
-        Err(p) => Err(Failure::new(kind, format!("PANIC: {}", panic_msg(&p)), case.clone())),
+        Err(p) => {
+            let m = panic_msg(&p);
+            if m.starts_with(HARNESS_PANIC) {
+                Err(Failure::new("infra", m, case.clone()))
+            } else {
+                Err(Failure::new(kind, format!("PANIC: {m}"), case.clone()))
+            }
+        }
     }
 }
 
@@ -302,7 +334,14 @@ where
     st.frozen = false;
     match res {
         Ok(()) => Ok(()),
-        Err(TestError::Fail(reason, value)) => Err(Failure::new(part, format!("{}", reason), value)),
+        Err(TestError::Fail(reason, value)) => {
+            let r = format!("{}", reason);
+            if r.contains(HARNESS_PANIC) {
+                Err(Failure::new("infra", r, value))
+            } else {
+                Err(Failure::new(part, r, value))
+            }
+        }
         Err(TestError::Abort(reason)) => Err(Failure::new("abort", format!("proptest aborted (generator problem, not a finding): {reason}"), json!(null))),
     }
 }
